@@ -243,3 +243,58 @@ package engine
 //@     invariant dmap(d) == sdD(m.Sections[1:], m.Dots, gotItems, r, #k)
 //@     invariant forall j int {m.Dots[j]} :: 0 <= j && j < #k ==> fsOK(m.Dots[j], m.Sections[1:][j], gotItems, sdD(m.Sections[1:], m.Dots, gotItems, r, j), r, sdIdx(m.Sections[1:], m.Dots, gotItems, r, j))
 //@     invariant keepsBindings(dmap(d0), dmap(d))
+
+// ---- package and import guards (C10), file traversal (C01) -------------------------------------------
+
+// The four-case table of the statement: unnamed matches only unnamed; a literal name only that
+// name; a metavariable name any name or none.
+//@ func (m ImportMatcher) Match(file, d) (d1, ok)
+//@   requires file != nil && d != nil
+//@   requires typing: forall i int {file.Imports[i]} :: 0 <= i && i < len(file.Imports) ==> file.Imports[i] != nil && file.Imports[i].Path != nil && unquoteOK(file.Imports[i].Path.Value)
+//@   unfold-post imOK(m, file, dmap(d)) == ok && (ok ==> imD(m, file, dmap(d)) == dmap(d1))
+//@   ensures ok == imOK(m, file, dmap(d)) && (ok ==> dmap(d1) == imD(m, file, dmap(d)))
+//@   ensures [C10] path-not-imported: ret("goast.FindImportSpec", 0) == nil ==> !ok
+//@   ensures [C10] unnamed-matches-only-unnamed: ret("goast.FindImportSpec", 0) != nil && m.Name == nil ==> (ok <==> ret("goast.FindImportSpec", 0).Name == nil)
+//@   ensures [C10] literal-name-does-not-match-unnamed: ret("goast.FindImportSpec", 0) != nil && m.Name != nil && ret("goast.FindImportSpec", 0).Name == nil && !m.NameIsMetavar ==> !ok
+//@   ensures [C10] metavariable-name-matches-unnamed: ret("goast.FindImportSpec", 0) != nil && m.Name != nil && ret("goast.FindImportSpec", 0).Name == nil && m.NameIsMetavar ==> ok == MatchOK(m.Name, ret("reflect.ValueOf", 1), dmap(ret("data.WithValue", 2)), nodeRegionOf(boxed(ret("goast.FindImportSpec", 0))))
+//@   ensures [C10] named-matches-by-name: ret("goast.FindImportSpec", 0) != nil && m.Name != nil && ret("goast.FindImportSpec", 0).Name != nil ==> ok == MatchOK(m.Name, rvOf(boxed(ret("goast.FindImportSpec", 0).Name)), dmap(ret("data.WithValue", 0)), nodeRegionOf(boxed(ret("goast.FindImportSpec", 0))))
+//@   ensures d1 != nil
+//@   assigns nothing
+
+// All listed imports must match, in order, threading the data.
+//@ func (m ImportsMatcher) Match(file, d) (d1, ok)
+//@   requires file != nil && d != nil
+//@   requires typing: forall i int {file.Imports[i]} :: 0 <= i && i < len(file.Imports) ==> file.Imports[i] != nil && file.Imports[i].Path != nil && unquoteOK(file.Imports[i].Path.Value)
+//@   unfold thrIm(m.Imports, file, dmap(d), 0) == dmap(d)
+//@   unfold-post imsOK(m, file, dmap(d)) == ok && (ok ==> imsD(m, file, dmap(d)) == dmap(d1))
+//@   ensures ok == imsOK(m, file, dmap(d)) && (ok ==> dmap(d1) == imsD(m, file, dmap(d)))
+//@   ensures [C10] all-listed-imports-must-match: ok <==> forall i int {m.Imports[i]} :: 0 <= i && i < len(m.Imports) ==> imOK(m.Imports[i], file, thrIm(m.Imports, file, dmap(d), i))
+//@   ensures d1 != nil
+//@   assigns nothing
+//@   loop 0
+//@     unfold thrIm(m.Imports, file, dmap(d0), #k + 1) == imD(m.Imports[#k], file, thrIm(m.Imports, file, dmap(d0), #k))
+//@     invariant d != nil
+//@     invariant dmap(d) == thrIm(m.Imports, file, dmap(d0), #k)
+//@     invariant forall i int {m.Imports[i]} :: 0 <= i && i < #k ==> imOK(m.Imports[i], file, thrIm(m.Imports, file, dmap(d0), i))
+//@     invariant fresh(matchedImports.arr)
+
+// The traversal callback: tests the node matcher at every node, always with the data the file
+// match was entered with, records every instance with its slot, and never prunes the walk.
+//@ func (m FileMatcher) Match$1(cursor) (res)
+//@   requires cursor != nil && d != nil && m.NodeMatcher != nil
+//@   assigns matches, elems(matches)
+//@   ensures [C01] never-prunes: curNode(cursor) != nil ==> res
+//@   ensures [C01] records-exactly-the-instances: curNode(cursor) != nil ==> len(matches) == old(len(matches)) + ite(MatchOK(m.NodeMatcher, rvOf(curNode(cursor)), dmap(d), nodeRegionOf(curNode(cursor))), 1, 0)
+//@   ensures [C01] nil-node-records-nothing: curNode(cursor) == nil ==> len(matches) == old(len(matches))
+//@   ensures [C01] earlier-matches-kept: forall i int {matches[i]} :: 0 <= i && i < old(len(matches)) ==> matches[i] == old(matches[i])
+//@   ensures [C01,C03] recorded-slot-is-the-cursor-slot: len(matches) > old(len(matches)) ==> matches[old(len(matches))] != nil && matches[old(len(matches))].parent == curParent(cursor) && matches[old(len(matches))].name == curName(cursor) && matches[old(len(matches))].index == curIndex(cursor) && matches[old(len(matches))].region == nodeRegionOf(curNode(cursor))
+//@   ensures [C02] recorded-data-is-this-sites-data: len(matches) > old(len(matches)) ==> dmap(matches[old(len(matches))].data) == MatchD(m.NodeMatcher, rvOf(curNode(cursor)), dmap(d), nodeRegionOf(curNode(cursor)))
+
+// A file is matched only if the package and import guards hold; then every node is tested.
+//@ func (m FileMatcher) Match(file, d) (d1, ok)
+//@   requires file != nil && file.Name != nil && d != nil && m.NodeMatcher != nil
+//@   requires typing: forall i int {file.Imports[i]} :: 0 <= i && i < len(file.Imports) ==> file.Imports[i] != nil && file.Imports[i].Path != nil && unquoteOK(file.Imports[i].Path.Value)
+//@   ensures [C10] package-guard: m.Package != "" && m.Package != file.Name.Name ==> !ok
+//@   ensures [C10] imports-guard: !imsOK(m.Imports, file, dmap(d)) ==> !ok
+//@   ensures d1 != nil
+//@   assigns nothing
